@@ -292,35 +292,11 @@ Proof.
   - apply c10_ok_added.
 Qed.
 
-(** trait mode: the user's attributes follow the generated ones as written *)
+(** the attributes that follow the generated ones on the trait (trait: all of the user's; fn / mod: the user's
+    re-applied sub-attributes) are exactly the ones the view subtracts *)
 Lemma c10_core_trait o ti mode im fns user :
   c10_ok o (match ti with TPlain => true | _ => false end) (minus_attrs (gen_added o ti mode im fns ++ user) user) = true.
 Proof. apply (c10_core o ti mode im fns); intros x; intros; rewrite count_added_all; lia. Qed.
-
-(** fn / mod mode: only the user's sub-attributes follow the generated ones; a user attribute that is not
-    re-applied but is token-identical to a generated mock attribute makes the view's subtraction remove
-    the generated one *)
-Lemma c10_core_fn o ti mode im fns user :
-  (forall u, In u user -> In u (gen_added o ti mode im fns) -> is_mock_attr u = true -> is_trait_sub u = true) ->
-  c10_ok o (match ti with TPlain => true | _ => false end)
-         (minus_attrs (gen_added o ti mode im fns ++ filter is_trait_sub user) user) = true.
-Proof.
-  intros Hc. apply (c10_core o ti mode im fns).
-  - intros x. rewrite count_added. lia.
-  - intros x Hx Mx. rewrite count_added. destruct (is_trait_sub x) eqn:Sx; [lia|].
-    assert (Hn : ~ In x user) by (intros Hu; rewrite (Hc x Hu Hx Mx) in Sx; discriminate).
-    apply (count_occ_not_In attr_eq_dec) in Hn. lia.
-Qed.
-
-Definition c10_no_clash (user : list attr) : bool :=
-  forallb (fun u => negb (is_mock_attr u) || is_trait_sub u) user.
-
-Lemma no_clash_spec user o ti mode im fns :
-  c10_no_clash user = true ->
-  forall u, In u user -> In u (gen_added o ti mode im fns) -> is_mock_attr u = true -> is_trait_sub u = true.
-Proof.
-  unfold c10_no_clash. rewrite forallb_forall. intros H u Hu _ Mu. specialize (H u Hu). rewrite Mu in H. exact H.
-Qed.
 
 Lemma minus_filter_nil (sub : attr -> bool) user : minus_attrs (filter sub user) user = [].
 Proof.
@@ -436,98 +412,19 @@ Proof.
     + rewrite minus_nil. reflexivity.
 Qed.
 
-(** [view_C10] computes the generated attributes as (trait attributes) minus (the user's attributes), one
-    occurrence each. For fn / mod only the user's sub-attributes ([async_trait], [automock] paths) are
-    re-applied to the trait, so a user attribute that is NOT re-applied and is token-identical to a
-    generated mock attribute (e.g. a hand-written [#[cfg_attr(test, ::mockall::automock)]] next to the
-    [mockall] option) cancels the generated one in the view: the unconditional statement is false
-    (see [c10_view_counterexample]). It holds whenever no such clash exists. *)
-Lemma c10_view_partial v attr i items :
-  expand_items v attr i = Ok items ->
-  match i with
-  | InFn h _ _ | InMod h _ _ _ _ => c10_no_clash (h_attrs h) = true
-  | _ => True
-  end ->
-  good (view_C10 (mkCtx v attr i) items).
+(** fn / mod: the trait carries the generated attributes followed by the user's re-applied sub-attributes,
+    and the view subtracts exactly those; trait: followed by all of the user's attributes, all subtracted.
+    In both cases the difference has, attribute by attribute, exactly the generated occurrences. *)
+Lemma c10_view v attr i items :
+  expand_items v attr i = Ok items -> good (view_C10 (mkCtx v attr i) items).
 Proof.
-  intros H Hc. destruct i as [h s body|h|h t|h|h tp st body sigs sf|h|h name body sigs sf|h|]; try discriminate H.
+  intros H. destruct i as [h s body|h|h t|h|h tp st body sigs sf|h|h name body sigs sf|h|]; try discriminate H.
   - destruct (expand_fn_inv _ _ _ _ _ _ H) as (a & tf & tg & mode & ib & Ha & _ & _ & _ & ->).
     unfold view_C10, good, fn_opts. cbn [x_input x_attr x_variant]. rewrite parts_fn, Ha. cbn [decided v_app v_det v_holds].
-    intros _. split; [reflexivity|]. rewrite t_attrs_gen_trait_def.
-    apply (c10_core_fn _ TPlain). apply no_clash_spec. exact Hc.
+    intros _. split; [reflexivity|]. rewrite t_attrs_gen_trait_def. apply (c10_core_trait _ TPlain).
   - apply c10_view_trait. exact H.
   - unfold view_C10, good. cbn. discriminate.
   - destruct (expand_mod_inv _ _ _ _ _ _ _ _ H) as (_ & bitems & fl & a & fns0 & tg & mode & ib & _ & Ha & _ & _ & _ & ->).
     unfold view_C10, good, fn_opts. cbn [x_input x_attr x_variant]. rewrite parts_mod, Ha. cbn [decided v_app v_det v_holds].
-    intros _. split; [reflexivity|]. rewrite t_attrs_gen_trait_def.
-    apply (c10_core_fn _ TPlain). apply no_clash_spec. exact Hc.
-Qed.
-
-(** exactly when the view's check passes on a fn / mod expansion: no generated mock attribute that is not a
-    sub-attribute is also written, token for token, by the user *)
-Definition c10_stolen (added user : list attr) : bool :=
-  existsb (fun a => is_mock_attr a && negb (is_trait_sub a) && existsb (toks_eqb a) user) added.
-
-Lemma filter_single_count (p : attr -> bool) a l : filter p l = [a] -> cnt l a = 1.
-Proof.
-  intros E. assert (Pa : p a = true) by (assert (H : In a (filter p l)) by (rewrite E; left; reflexivity); apply filter_In in H; apply H).
-  pose proof (count_filter p a l) as Hf. rewrite Pa, E in Hf. rewrite <- Hf.
-  apply (count_occ_cons_eq attr_eq_dec [] eq_refl).
-Qed.
-
-Lemma c10_fn_exact o mode im fns user :
-  let added := gen_added o TPlain mode im fns in
-  c10_ok o true (minus_attrs (added ++ filter is_trait_sub user) user) = negb (c10_stolen added user).
-Proof.
-  intros added. destruct (c10_stolen added user) eqn:S; cbn [negb].
-  - unfold c10_stolen in S. apply existsb_exists in S as (a & Ha & S).
-    apply andb_true_iff in S as [S Hu]. apply andb_true_iff in S as [Ma Sa]. apply negb_true_iff in Sa.
-    apply existsb_exists in Hu as (u & Hu & E). apply toks_eqb_eq in E. subst u.
-    set (R := minus_attrs (added ++ filter is_trait_sub user) user).
-    assert (Hle : forall x, cnt R x <= cnt added x) by (intros x; unfold R; rewrite count_added; lia).
-    assert (HR : cnt R a = cnt added a - cnt user a) by (unfold R; rewrite count_added, Sa; reflexivity).
-    apply (count_occ_In attr_eq_dec) in Hu.
-    unfold c10_ok. fold R.
-    unfold is_mock_attr in Ma. apply orb_true_iff in Ma as [Pa|Pa].
-    + assert (Hf : filter is_unimock_attr added = [a]).
-      { assert (Hin : In a (filter is_unimock_attr added)) by (apply filter_In; split; assumption).
-        unfold added in *. rewrite filter_unimock_added in *. unfold gen_unimock in *.
-        destruct (unimock_value o && negb (unimock_params_empty TPlain (o_mock_api o))); [|destruct Hin].
-        destruct Hin as [<-|[]]. reflexivity. }
-      pose proof (filter_single_count _ _ _ Hf) as H1.
-      destruct (filter_slot _ a added R Hle Hf) as [[_ ->]|[H2 _]]; [|lia].
-      unfold added in Hf. rewrite filter_unimock_added in Hf. unfold gen_unimock, unimock_params_empty in Hf.
-      destruct (unimock_value o), (o_mock_api o); try discriminate Hf. reflexivity.
-    + assert (Hf : filter is_mockall_attr added = [a]).
-      { assert (Hin : In a (filter is_mockall_attr added)) by (apply filter_In; split; assumption).
-        unfold added in *. rewrite filter_mockall_added in *. unfold gen_mockall in *.
-        destruct (mockall_value o); [|destruct Hin]. destruct Hin as [<-|[]]. reflexivity. }
-      pose proof (filter_single_count _ _ _ Hf) as H1.
-      destruct (filter_slot _ a added R Hle Hf) as [[_ ->]|[H2 _]]; [|lia].
-      unfold added in Hf. rewrite filter_mockall_added in Hf. unfold gen_mockall in Hf.
-      destruct (mockall_value o); try discriminate Hf. cbn [List.length Nat.eqb]. rewrite andb_false_r. reflexivity.
-  - apply (c10_core_fn o TPlain). intros u Hu Ha Mu.
-    destruct (is_trait_sub u) eqn:Su; [reflexivity|]. exfalso.
-    assert (T : c10_stolen added user = true); [|rewrite S in T; discriminate].
-    unfold c10_stolen. apply existsb_exists. exists u. split; [exact Ha|]. rewrite Mu, Su. cbn [negb andb].
-    apply existsb_exists. exists u. split; [exact Hu | apply toks_eqb_refl].
-Qed.
-
-(** a concrete expansion of the model on which [view_C10] evaluates to "violated":
-    [#[entrait(Foo, mockall)] #[cfg_attr(test, ::mockall::automock)] fn foo(deps: &impl A) {}] *)
-Definition c10_cx_attr : toks := [TId "Foo"%string; comma; TId "mockall"%string].
-Definition c10_cx_input : input :=
-  InFn (mkHead [[TId "cfg_attr"%string; TG Paren ([TId "test"%string; comma] ++ abs_path ["mockall"%string; "automock"%string])]]
-               [] false false)
-       (mkSig false false false None "foo"%string no_generics
-              (mkP [ArgTyped [] (PIdent false false "deps"%string []) (TyRef None false (TyImpl false [[TId "A"%string]]))] false)
-              None None)
-       [TG Brace []].
-
-Lemma c10_view_counterexample :
-  exists items, expand_items VEntrait c10_cx_attr c10_cx_input = Ok items /\
-                ~ good (view_C10 (mkCtx VEntrait c10_cx_attr c10_cx_input) items).
-Proof.
-  eexists. split; [vm_compute; reflexivity|]. intros G. unfold good in G.
-  vm_compute in G. destruct (G eq_refl) as [_ F]. discriminate F.
+    intros _. split; [reflexivity|]. rewrite t_attrs_gen_trait_def. apply (c10_core_trait _ TPlain).
 Qed.
